@@ -42,6 +42,8 @@ func (m *c02Trace) Key() string { return strings.Join(m.ev, ";") }
 type c02Ref struct {
 	order    []string
 	instants map[string]int64
+	resp     map[string]string // request id (incl. epilogue) -> rendered response
+	members  map[string]bool   // concurrent requests that were executed in this reference run
 }
 
 type C02Job struct {
@@ -50,77 +52,107 @@ type C02Job struct {
 
 func (j *C02Job) Name() string { return j.Sc.Name }
 
-// responseVector: id -> rendered response, for the concurrent requests and the epilogue.
-func responseVector(r *ExecResult) (string, []*world.Req) {
+func responseMap(r *ExecResult) (map[string]string, []*world.Req) {
+	out := map[string]string{}
 	var reqs []*world.Req
 	for _, q := range r.Reqs {
-		if q.Client != 9 {
-			reqs = append(reqs, q)
+		if q.Client == 9 {
+			continue
+		}
+		reqs = append(reqs, q)
+		if q.Lost {
+			out[q.Id] = "LOST"
+		} else {
+			out[q.Id] = world.RenderResponse(q)
 		}
 	}
 	sort.Slice(reqs, func(a, b int) bool { return reqs[a].Id < reqs[b].Id })
-	var b strings.Builder
-	for _, q := range reqs {
-		if q.Lost {
-			fmt.Fprintf(&b, "%s=LOST;", q.Id)
-		} else {
-			fmt.Fprintf(&b, "%s=%s;", q.Id, world.RenderResponse(q))
-		}
-	}
-	return b.String(), reqs
+	return out, reqs
 }
+
+func renderMap(m map[string]string) string {
+	ks := make([]string, 0, len(m))
+	for k := range m {
+		ks = append(ks, k)
+	}
+	sort.Strings(ks)
+	var b strings.Builder
+	for _, k := range ks {
+		fmt.Fprintf(&b, "%s=%s;", k, m[k])
+	}
+	return b.String()
+}
+
+func failed(q *world.Req) bool { return q.Lost || q.Err != nil || !q.Done }
 
 func (j *C02Job) Run(deadline time.Time) *runner.JobResult {
 	res := &runner.JobResult{Name: j.Sc.Name, Counters: map[string]int64{}}
 	stop := func() bool { return !deadline.IsZero() && time.Now().After(deadline) }
 
-	// phase 1: the reference set from request-atomic schedules
-	ref := *j.Sc
-	ref.snaps, ref.snap = nil, nil
-	ref.AtomicRequests, ref.KeyResponses = true, true
-	ref.Monitors = func() []world.Monitor { return []world.Monitor{&c02Trace{}} }
-	R := map[string][]c02Ref{}
-	ex1 := &vx.Explorer{Bound: -1, Prune: true, Stop: stop}
-	ex1.Explore(func(ch *vx.Chooser) bool {
-		runner.Trace(fmt.Sprintf("JOB %s REF PREFIX %v", j.Sc.Name, ch.Prefix()))
-		r := ref.RunOnce(ch, false)
-		if r.Cut {
+	// phase 1: the reference set. FAULT-FREE request-atomic schedules of every subset of
+	// the concurrent requests: a request that failed in a concurrent run may or may not
+	// have taken effect, a request that did not fail must be answered exactly as some
+	// failure-free one-at-a-time execution answers it.
+	var refs []c02Ref
+	nc := len(j.Sc.Clients)
+	for mask := 0; mask < 1<<nc; mask++ {
+		ref := *j.Sc
+		ref.snaps, ref.snap = nil, nil
+		ref.AtomicRequests, ref.KeyResponses, ref.Faults, ref.Crashes = true, true, 0, 0
+		ref.Clients = make([][]ReqF, nc)
+		for c := 0; c < nc; c++ {
+			if mask&(1<<c) != 0 {
+				ref.Clients[c] = j.Sc.Clients[c]
+			}
+		}
+		ref.Monitors = func() []world.Monitor { return []world.Monitor{&c02Trace{}} }
+		ex1 := &vx.Explorer{Bound: -1, Prune: true, Stop: stop}
+		bad := false
+		ex1.Explore(func(ch *vx.Chooser) bool {
+			runner.Trace(fmt.Sprintf("JOB %s REF %d PREFIX %v", j.Sc.Name, mask, ch.Prefix()))
+			r := ref.RunOnce(ch, false)
+			if r.Cut {
+				return true
+			}
+			if len(r.Viol) > 0 {
+				for _, v := range r.Viol {
+					res.Violations = append(res.Violations, runner.Violation{Sig: "C02:reference-run:" + v.Sig, Msg: v.Msg, Job: j.Sc.Name, Replay: map[string]any{"scenario": j.Sc.Name, "phase": "reference", "choices": r.Choices, "labels": r.Labels}})
+				}
+				bad = true
+				return false
+			}
+			m, reqs := responseMap(r)
+			rf := c02Ref{instants: map[string]int64{}, resp: m, members: map[string]bool{}}
+			sort.Slice(reqs, func(a, b int) bool { return reqs[a].SubmitStep < reqs[b].SubmitStep })
+			for _, q := range reqs {
+				if q.Client == 8 {
+					continue
+				}
+				rf.order = append(rf.order, q.Id)
+				rf.instants[q.Id] = q.SubmitClock
+				rf.members[q.Id] = true
+			}
+			refs = append(refs, rf)
 			return true
+		})
+		res.Counters["reference_executions"] += ex1.Stats.Executions
+		res.Executions += ex1.Stats.Executions
+		res.States += ex1.Stats.States
+		res.Transitions += ex1.Stats.Transitions
+		if ex1.Stats.Capped || bad {
+			res.Capped = ex1.Stats.Capped
+			return res
 		}
-		if len(r.Viol) > 0 {
-			for _, v := range r.Viol {
-				res.Violations = append(res.Violations, runner.Violation{Sig: "C02:reference-run:" + v.Sig, Msg: v.Msg, Job: j.Sc.Name, Replay: map[string]any{"scenario": j.Sc.Name, "phase": "reference", "choices": r.Choices, "labels": r.Labels}})
-			}
-			return false
-		}
-		v, reqs := responseVector(r)
-		rf := c02Ref{instants: map[string]int64{}}
-		sort.Slice(reqs, func(a, b int) bool { return reqs[a].SubmitStep < reqs[b].SubmitStep })
-		for _, q := range reqs {
-			if q.Client == 8 {
-				continue
-			}
-			rf.order = append(rf.order, q.Id)
-			rf.instants[q.Id] = q.SubmitClock
-		}
-		R[v] = append(R[v], rf)
-		return true
-	})
-	res.Counters["reference_executions"] = ex1.Stats.Executions
-	res.Counters["reference_outcomes"] = int64(len(R))
-	if ex1.Stats.Capped || len(res.Violations) > 0 {
-		res.Capped = ex1.Stats.Capped
-		res.Executions = ex1.Stats.Executions
-		return res
 	}
+	res.Counters["reference_runs"] = int64(len(refs))
 
-	// phase 2: every concurrent schedule must be explained by a reference run
+	// phase 2: every concurrent schedule (with failures) must be explained by a reference run
 	conc := *j.Sc
 	conc.snaps, conc.snap = nil, nil
 	conc.AtomicRequests, conc.KeyResponses = false, true
 	conc.Monitors = func() []world.Monitor { return []world.Monitor{&c02Trace{}} }
 	outcomes := map[string]bool{}
-	reported := false
+	reported := map[string]bool{}
 	ex2 := &vx.Explorer{Bound: j.Sc.Bound, Prune: true, Stop: stop}
 	ex2.Explore(func(ch *vx.Chooser) bool {
 		runner.Trace(fmt.Sprintf("JOB %s PREFIX %v", j.Sc.Name, ch.Prefix()))
@@ -134,32 +166,30 @@ func (j *C02Job) Run(deadline time.Time) *runner.JobResult {
 			}
 			return false
 		}
-		v, reqs := responseVector(r)
+		m, reqs := responseMap(r)
+		v := renderMap(m)
 		outcomes[h8(v)] = true
 		if len(res.Samples) < 1 {
 			res.Samples = append(res.Samples, map[string]any{"schedule": r.Labels, "responses": v})
 		}
-		if explained(R[v], reqs) {
+		if explained(refs, m, reqs) {
 			return true
 		}
-		if !reported {
-			reported = true
-			why := "no request-atomic execution of the same requests produces this response vector"
-			if len(R[v]) > 0 {
-				why = "request-atomic executions produce this response vector only in orders / at instants that contradict the real-time order or the request intervals of this schedule"
+		kinds := []string{}
+		for _, q := range reqs {
+			if q.Client != 8 {
+				kinds = append(kinds, fmt.Sprintf("%s:%d", q.Req.Kind, q.Status()))
 			}
-			kinds := []string{}
-			for _, q := range reqs {
-				if q.Client != 8 {
-					kinds = append(kinds, fmt.Sprintf("%s:%d", q.Req.Kind, q.Status()))
-				}
-			}
-			rv := runner.Violation{Sig: "C02:not-linearizable:" + strings.Join(kinds, ","), Job: j.Sc.Name,
-				Msg: fmt.Sprintf("%s\nresponses: %s\nschedule:\n  %s", why, v, strings.Join(r.Labels, "\n  "))}
+		}
+		sig := "C02:not-linearizable:" + strings.Join(kinds, ",")
+		if !reported[sig] && len(reported) < 6 {
+			reported[sig] = true
+			rv := runner.Violation{Sig: sig, Job: j.Sc.Name,
+				Msg: fmt.Sprintf("no failure-free one-at-a-time execution of (a subset containing every request that did not fail of) the same requests gives these responses in an order / at instants compatible with this schedule\nresponses: %s\nschedule:\n  %s", v, strings.Join(r.Labels, "\n  "))}
 			for k := 0; k < 5; k++ {
 				rr := conc.RunOnce(vx.NewChooser(r.Choices), true)
-				v2, _ := responseVector(rr)
-				if v2 != v {
+				m2, _ := responseMap(rr)
+				if renderMap(m2) != v {
 					rv.Flaky = true
 				}
 				rv.Replay = map[string]any{"scenario": j.Sc.Name, "choices": r.Choices, "labels": r.Labels, "log": rr.Log}
@@ -168,10 +198,10 @@ func (j *C02Job) Run(deadline time.Time) *runner.JobResult {
 		}
 		return true
 	})
-	res.Executions = ex1.Stats.Executions + ex2.Stats.Executions
-	res.States = ex1.Stats.States + ex2.Stats.States
-	res.Transitions = ex1.Stats.Transitions + ex2.Stats.Transitions
-	res.Cut = ex1.Stats.Cut + ex2.Stats.Cut
+	res.Executions += ex2.Stats.Executions
+	res.States += ex2.Stats.States
+	res.Transitions += ex2.Stats.Transitions
+	res.Cut = ex2.Stats.Cut
 	res.MaxDepth = ex2.Stats.MaxDepth
 	res.Capped = ex2.Stats.Capped
 	for o := range outcomes {
@@ -181,9 +211,11 @@ func (j *C02Job) Run(deadline time.Time) *runner.JobResult {
 	return res
 }
 
-// explained: some reference run has an order consistent with the real-time
-// precedence of the concurrent run and an instant inside every request's interval.
-func explained(refs []c02Ref, reqs []*world.Req) bool {
+// explained: some failure-free reference run (over a subset of the requests that
+// contains every request that did not fail) answers every non-failed request and the
+// epilogue identically, in an order consistent with the real-time precedence of the
+// concurrent run and at an instant inside every request's interval.
+func explained(refs []c02Ref, m map[string]string, reqs []*world.Req) bool {
 	for _, rf := range refs {
 		pos := map[string]int{}
 		for i, id := range rf.order {
@@ -192,13 +224,27 @@ func explained(refs []c02Ref, reqs []*world.Req) bool {
 		ok := true
 		for _, a := range reqs {
 			if a.Client == 8 {
+				if rf.resp[a.Id] != m[a.Id] {
+					ok = false
+				}
 				continue
 			}
-			t, has := rf.instants[a.Id]
-			if !has {
+			if failed(a) {
+				continue // may or may not have taken effect; its own answer is an error
+			}
+			if !rf.members[a.Id] || rf.resp[a.Id] != m[a.Id] {
 				ok = false
 				break
 			}
+		}
+		if !ok {
+			continue
+		}
+		for _, a := range reqs {
+			if a.Client == 8 || !rf.members[a.Id] {
+				continue
+			}
+			t := rf.instants[a.Id]
 			end := a.ResClock
 			if !a.Done {
 				end = 1 << 62
@@ -208,7 +254,7 @@ func explained(refs []c02Ref, reqs []*world.Req) bool {
 				break
 			}
 			for _, b := range reqs {
-				if b.Client == 8 || a == b {
+				if b.Client == 8 || a == b || !rf.members[b.Id] {
 					continue
 				}
 				if a.Done && a.ResStep < b.SubmitStep && pos[a.Id] > pos[b.Id] {
@@ -350,7 +396,7 @@ func init() {
 				}
 				return jobs
 			},
-			Rule:   "per scenario (2 concurrent requests and selected triples in quick, all triples in thorough, over promise / task / lock / schedule families on shared ids, from 2 setup states each, with the family's background sweep, one clock step onto the deadline / lease end and one injected failure): first ALL request-atomic schedules of the real code give the reference set of (order, instants, response vector incl. a read-back epilogue); then EVERY concurrent schedule must be explained by a reference element with the same responses, an order consistent with real-time precedence and instants inside the request intervals; distinct = distinct response vectors per scenario",
+			Rule:   "per scenario (2 concurrent requests and selected triples in quick, all triples in thorough, over promise / task / lock / schedule families on shared ids, from 2 setup states each, with the family's background sweep, one clock step onto the deadline / lease end and one injected failure): first ALL failure-free request-atomic schedules of the real code, for every subset of the requests, give the reference set of (order, instants, responses incl. a read-back epilogue); then EVERY concurrent schedule (with the failure) must be explained by a reference element that contains every request that did not fail, with the same responses for them and for the epilogue, an order consistent with real-time precedence and instants inside the request intervals; distinct = distinct response vectors per scenario",
 			Assume: append([]string{"the reference is the same code run request-atomically: a defect that is also present in sequential execution is invisible here (C01, C03-C10 have explicit oracles for that)"}, engineAAssume...),
 			QuickS: 150, ThoroughS: 2400,
 		}
